@@ -64,7 +64,9 @@ class TLOMutator(Contract):
 
     @property
     def overloads(self):
-        return self.base.overloads
+        # the non-integer multiplier overload of TraitList.__imul__ is not taken over: TraitListObject.__imul__ first computes
+        # len(self) * value for its length check, an arithmetic on arbitrary objects outside the subset (stated, not claimed)
+        return tuple(o for o in self.base.overloads if o != "non-index-multiplier")
 
     def configure(self, cx, I, ov):
         install_owner_hooks(cx)
